@@ -28,7 +28,7 @@ var c16Ambient = []string{"home", "path", "pwd", "verif.ambient", "verif-ambient
 func (c16) ID() string    { return "C16" }
 func (c16) Level() string { return "exploration" }
 func (c16) Rule() string {
-	return "seeded tag texts from a grammar (literal chunks, ${k}, ${k:default}, placeholders nested inside another placeholder's key, 1..4 placeholders per tag, repetitions) x seeded configurations (present scalar keys, absent keys, keys holding an empty map / empty list, values that themselves contain placeholders, reference cycles of length 1..3 incl. growing ones like a: \"x${a}\") on value / prop / prefix / wire tags of reflect.StructOf holders. Oracle (i): an independent model resolver (leftmost-innermost scan, key/default split at the first ':', present = non-nil and not an empty collection, own cycle detection) computes the replacement text T'; when T' is not type-sniffable the string field must hold exactly T' (prefix: the value at path T'; wire: the component named T'); when T' is sniffable the field is compared with a twin field tagged with the literal T' in a second start. Oracle (ii): for every configuration, cyclic or not, App.Run must return (error or value) within a step budget on Binder.Get calls (20000) - decided in logical steps; a panic is a violation. non-trivial = >= 2 placeholders, or nesting, or a configured value containing a placeholder, or a cycle; distinct = (tag text, configuration signature); a retried family: lazy component whose first creation fails after tag processing, key changed with Set, second attempt must resolve against the current configuration (value tags and placeholder-carrying prefix paths); other-tags family (user-defined tag, logger tag) and early family (components created before the refresh); defaults with blanks; configured values carrying expressions; prop keys spelled by placeholders at both ends (indirection); keys spelled like variables of the process environment (configured and not); collections family (mapping / list valued placeholders compared with a twin written with the JSON rendering); afterFailure family (a failed resolution leaves nothing behind, stall detection); no unresolved ${...} text after a successful start over a circular configuration; emptyName family (a wire tag resolving to the empty text is a by-type point); longValue family (configured values of up to 70 KB behind short tags)"
+	return "seeded tag texts from a grammar (literal chunks, ${k}, ${k:default}, placeholders nested inside another placeholder's key, 1..4 placeholders per tag, repetitions) x seeded configurations (present scalar keys, absent keys, keys holding an empty map / empty list, values that themselves contain placeholders, reference cycles of length 1..3 incl. growing ones like a: \"x${a}\") on value / prop / prefix / wire tags of reflect.StructOf holders. Oracle (i): an independent model resolver (leftmost-innermost scan, key/default split at the first ':', present = non-nil and not an empty collection, own cycle detection) computes the replacement text T'; when T' is not type-sniffable the string field must hold exactly T' (prefix: the value at path T'; wire: the component named T'); when T' is sniffable the field is compared with a twin field tagged with the literal T' in a second start. Oracle (ii): for every configuration, cyclic or not, App.Run must return (error or value) within a step budget on Binder.Get calls (20000) - decided in logical steps; a panic is a violation. non-trivial = >= 2 placeholders, or nesting, or a configured value containing a placeholder, or a cycle; distinct = (tag text, configuration signature); a retried family: lazy component whose first creation fails after tag processing, key changed with Set, second attempt must resolve against the current configuration (value tags and placeholder-carrying prefix paths); other-tags family (user-defined tag, logger tag) and early family (components created before the refresh); defaults with blanks; configured values carrying expressions; prop keys spelled by placeholders at both ends (indirection); keys spelled like variables of the process environment (configured and not); collections family (mapping / list valued placeholders compared with a twin written with the JSON rendering); afterFailure family (a failed resolution leaves nothing behind, stall detection); no unresolved ${...} text after a successful start over a circular configuration; emptyName family (a wire tag resolving to the empty text is a by-type point); longValue family (configured values of up to 70 KB behind short tags); defaults that begin with a colon"
 }
 func (c16) Assumptions() []string {
 	return []string{
